@@ -199,8 +199,30 @@ pub fn run_case(seed: u64, c: &Value) -> Result<(), String> {
     }
 }
 
+/// Replaces the base sizes 64 and 66 by `base` and `base + 2` everywhere below `v`.
+fn rescale(v: &mut Value, base: i64) {
+    match v {
+        Value::Number(n) => {
+            if n.as_i64() == Some(64) {
+                *v = Value::from(base);
+            } else if n.as_i64() == Some(66) {
+                *v = Value::from(base + 2);
+            }
+        }
+        Value::Array(a) => a.iter_mut().for_each(|x| rescale(x, base)),
+        Value::Object(m) => m.values_mut().for_each(|x| rescale(x, base)),
+        _ => {}
+    }
+}
+
+fn small_counts(c: &Value) -> bool {
+    let ok = |k: &str| c[k].as_i64().is_some_and(|x| (0..=16).contains(&x));
+    ok("k") && ok("r")
+}
+
 pub fn main(args: &Args) -> i32 {
     let seed = args.num("seed", 1);
+    let big_every = args.num("big-every", 0) as usize;
     let outdir = args.req("outdir").to_string();
     let f = std::fs::File::open(args.req("cases")).expect("cases");
     let lines: Vec<String> = std::io::BufReader::new(f).lines().map(Result::unwrap).filter(|l| !l.trim().is_empty()).collect();
@@ -212,10 +234,24 @@ pub fn main(args: &Args) -> i32 {
             .map(|chunk| {
                 sc.spawn(move || {
                     let mut v = Vec::new();
-                    for l in chunk {
+                    for (li, l) in chunk.iter().enumerate() {
                         let c: Value = serde_json::from_str(l).expect("case json");
                         if let Err(w) = run_case(seed, &c) {
                             v.push((w, (*l).clone()));
+                        }
+                        // the same case with the base shard size 64 replaced by a large one (the contract does not
+                        // depend on the size): striped / tiled paths of the one-shot functions
+                        if big_every > 0 && (li + seed as usize) % big_every == 0 && small_counts(&c) {
+                            let base = [32768i64, 16448, 40960, 65536][(li / big_every) % 4];
+                            let mut c2 = c.clone();
+                            for key in ["L", "O", "R", "allowed"] {
+                                if let Some(x) = c2.get_mut(key) {
+                                    rescale(x, base);
+                                }
+                            }
+                            if let Err(w) = run_case(seed, &c2) {
+                                v.push((w, c2.to_string()));
+                            }
                         }
                     }
                     v
